@@ -41,6 +41,9 @@ type mtlsIn struct {
 	KeyLens []int    `json:"key_lens,omitempty"`
 	Rounds  int      `json:"rounds,omitempty"`
 	Steps   [][2][]int `json:"steps,omitempty"` // seq: per connection attempt the (server, client) allow-lists installed by Replace
+	// verify: a SECOND allow-list object built from the same key slice gets this list installed by Replace first;
+	// the list under test must not notice (allow-lists are independent objects)
+	SiblingReplace []int `json:"sibling_replace,omitempty"`
 }
 
 func detKey(seed int64) (ed25519.PublicKey, ed25519.PrivateKey) {
@@ -330,6 +333,18 @@ func mtlsCase(in mtlsIn, tags ...string) caseRec {
 		if err != nil {
 			panic(err)
 		}
+		allowTerm := coqKeys(allow) // printed before anything can scribble on the slice
+		if in.SiblingReplace != nil {
+			sibling, err := mtls.ValidPublicKeysFromEd25519(allow...)
+			if err != nil {
+				panic(err)
+			}
+			nl, err := mtls.ValidPublicKeysFromEd25519(pick(in.SiblingReplace)...)
+			if err != nil {
+				panic(err)
+			}
+			sibling.Replace(nl)
+		}
 		var raw [][]byte
 		var descs []string
 		for _, c := range in.Certs {
@@ -355,7 +370,7 @@ func mtlsCase(in mtlsIn, tags ...string) caseRec {
 		var res error
 		_, panicked, _ := protect(func() error { res = pk.VerifyPeerCertificate()(raw, nil); return nil })
 		ok := res == nil && !panicked
-		coq := fmt.Sprintf("MVerify %s %s %s", coqList(descs), coqKeys(allow), coqBool(ok))
+		coq := fmt.Sprintf("MVerify %s %s %s", coqList(descs), allowTerm, coqBool(ok))
 		return caseRec{Input: in, Output: map[string]any{"accepted": ok, "panicked": panicked}, Coq: coq, Tags: tags}
 	case "ctor":
 		var ks []ed25519.PublicKey
@@ -416,6 +431,13 @@ func genMtls(seed int64, n int, tier string) []caseRec {
 	// every certificate shape
 	for _, certs := range [][]string{{}, {"ed:1"}, {"ed:2"}, {"ed:1", "ed:1"}, {"ed:1", "ed:2"}, {"ecdsa"}, {"garbage"}, {"empty"}, {"ed:2", "ed:1"}, {"garbage", "ed:1"}} {
 		cs = append(cs, mtlsCase(mtlsIn{Kind: "verify", Seeds: []int64{21, 22, 23}, SAllow: []int{0, 1}, Certs: certs}, "shapes"))
+	}
+	// several allow-list objects built from one key slice: replacing the list of one must not change what another admits
+	for k := 0; k < 5; k++ {
+		for _, repl := range [][]int{{3, 4}, {4}, {3, 4, 0}} {
+			cs = append(cs, mtlsCase(mtlsIn{Kind: "verify", Seeds: []int64{31, 32, 33, 34, 35}, SAllow: []int{0, 1, 2}, SiblingReplace: repl,
+				Certs: []string{fmt.Sprintf("ed:%d", k)}}, "sibling-replace"))
+		}
 	}
 	for _, lens := range [][]int{{}, {32}, {31}, {33}, {0}, {32, 32}, {32, 31}, {64}, {32, 0, 32}} {
 		cs = append(cs, mtlsCase(mtlsIn{Kind: "ctor", KeyLens: lens}, "ctor"))
